@@ -76,7 +76,8 @@ def normalise(toks):
                         k2 += 1
                     ty = toks[j + 2:k2]
                     for n_i, nm in enumerate(names):
-                        out += [nm, ":"] + ty
+                        # VAR a, b : T makes every name of the group a VAR parameter
+                        out += (["var"] if n_i > 0 and prev == "var" else []) + [nm, ":"] + ty
                         if n_i < len(names) - 1:
                             out.append(";")
                     i = k2
